@@ -8,9 +8,12 @@
   implementation's observations.
 -/
 import Upnp.Lemmas.C02Total
+import Upnp.Lemmas.C02Listener
+import Upnp.Lemmas.C02Interface
 import Upnp.Gen.C01Ssdp
 import Upnp.Gen.C02Recv
 import Upnp.Gen.C02Sites
+import Upnp.Spec.C03Cfg
 import Upnp.Model.C02Sites
 namespace Upnp.C02
 open Upnp Upnp.C01
@@ -32,7 +35,7 @@ theorem guards_present : sourceFixes = Fixes.all := by decide
 /-- the constants the model hard-codes are the ones in the source -/
 theorem constants_pinned :
     Gen.C02Recv.defaultMaxAge = 900 ∧ Gen.C02Recv.locationPrefix = ofString "http"
-    ∧ Gen.C02Recv.badLocationNeedles = badNeedles ∧ Gen.C02Recv.mxCap = 5
+    ∧ Gen.C02Recv.badLocationNeedles = [ofString "://127.0.0.1", ofString "://[::1]", ofString "://169.254"] ∧ Gen.C02Recv.mxCap = 5
     ∧ Gen.C02Recv.jitterLo = 100 ∧ Gen.C02Recv.jitterHiOffset = 250
     ∧ Gen.C02Recv.searchRequestLine = ofString "M-SEARCH * HTTP/1.1" ∧ Gen.C02Recv.discover = discover
     ∧ Gen.C02Recv.ntsAlive = ofString "ssdp:alive" ∧ Gen.C02Recv.ntsByebye = ofString "ssdp:byebye"
@@ -58,6 +61,28 @@ theorem unguarded_sites_are_modelled :
       | .caught _ => r.1.2.2 != "-"
       | _ => true) = true := by decide
 
+/-! ### the one interface assumption between the decoder model (C01) and the tracker model (C03) -/
+
+/-- the string-level header map the tracker model reads -/
+def hsOf (h : Hdrs) : C03.Hdrs String := C16.SMap.writeAll C03.Parse.lower [] (pairsOf h)
+
+/-- what the tracker model needs of a decoded header map (`C03.Parse.parseEv_wf` names it), part 1:
+    whenever the USN yields a udn, the `_udn` entry is that udn -/
+def udnGuarantee (h : Hdrs) : Prop :=
+  ∀ u, (C03.Parse.truthy (PyDict.get? (hsOf h) "usn")).bind C03.Parse.udnFromUsn = some u →
+    C03.Parse.truthy (PyDict.get? (hsOf h) "_udn") = some u
+
+/-- … for every header map the decoder returns (PROVED below: `decode_guarantee`) -/
+def DecodeGuarantee : Prop :=
+  ∀ (d : Bytes) (loc : Option Addr) (src : Addr) (now : Int) (rl : Bytes) (h : Hdrs),
+    decodeX Fixes.all d loc src now = .ok (rl, h) → udnGuarantee h
+
+/-- part 2, about the clock and not about the decoder: `_timestamp` is a `datetime`, so not beyond
+    `datetime.max` (in the model `_timestamp` is the decimal rendering of the clock value `now`).
+    It is an explicit hypothesis of the listener theorems; the real clock cannot violate it. -/
+def ClockOk (trk : C03.Cfg) (d : Bytes) (loc : Option Addr) (src : Addr) (now : Int) : Prop :=
+  ∀ rl h, decodeX Fixes.all d loc src now = .ok (rl, h) → C03.Parse.tsOf (hsOf h) ≤ trk.tMax
+
 /-! ### totality -/
 
 theorem onData_total (cfg : Cfg) (ep : Endpoint) (t : Tracker) {d : Bytes} {loc : Option Addr} {src : Addr} {now : Int}
@@ -69,38 +94,27 @@ theorem onData_total (cfg : Cfg) (ep : Endpoint) (t : Tracker) {d : Bytes} {loc 
     obtain ⟨b, hb⟩ := searchClassify_total cfg.targetHost hd
     simp only [onData, hb]; exact ⟨_, rfl⟩
   | listenerAdv =>
-    simp only [onData]
-    cases advClassify h with
-    | none => exact ⟨_, rfl⟩
-    | some k =>
-      cases k with
-      | byebye => exact ⟨_, rfl⟩
-      | alive =>
-        simp only [seeAdvertisement]
-        split
-        · exact ⟨_, rfl⟩
-        · obtain ⟨⟨t', o⟩, hs⟩ := seeDevice_total t h
-          rw [hs]; cases o <;> exact ⟨_, rfl⟩
-      | update =>
-        simp only [seeAdvertisement]
-        split
-        · exact ⟨_, rfl⟩
-        · obtain ⟨⟨t', o⟩, hs⟩ := seeDevice_total t h
-          rw [hs]; cases o <;> exact ⟨_, rfl⟩
+    simp only [onData, listenerStep_spec]; exact ⟨_, rfl⟩
   | listenerSearch =>
     obtain ⟨b, hb⟩ := searchClassify_total cfg.targetHost hd
     simp only [onData, hb]
     cases b with
     | false => exact ⟨_, rfl⟩
     | true =>
-      simp only [seeSearch]
-      split
-      · exact ⟨_, rfl⟩
-      · obtain ⟨⟨t', o⟩, hs⟩ := seeDevice_total t h
-        rw [hs]; cases o <;> exact ⟨_, rfl⟩
+      simp only [listenerStep_spec]; exact ⟨_, rfl⟩
   | responder =>
     obtain ⟨e, he⟩ := responder_total cfg rl h
     simp only [onData, he]; exact ⟨_, rfl⟩
+
+theorem protocolRecv_some {cfg : Cfg} {data : Bytes} {loc : Option Addr} {src : Addr} {now : Int} {rl : Bytes} {h : Hdrs}
+    (hr : protocolRecv Fixes.all cfg.prefixes data loc src now = .ok (some (rl, h))) :
+    decodeX Fixes.all data loc src now = .ok (rl, h) := by
+  unfold protocolRecv at hr
+  split at hr
+  · cases hr
+  · split at hr
+    · rename_i r' hr'; cases hr; exact hr'
+    · split at hr <;> cases hr
 
 /-- **C02, first sentence.**  Whatever bytes arrive from whatever sender, at whatever clock value
     and in whatever tracker state, handing the datagram to any endpoint (advertisement listener,
@@ -115,14 +129,7 @@ theorem recv_total (cfg : Cfg) (ep : Endpoint) (t : Tracker) (data : Bytes) (loc
   | none => exact ⟨t, noEff, rfl⟩
   | some p =>
     obtain ⟨rl, h⟩ := p
-    have hd : decodeX Fixes.all data loc src now = .ok (rl, h) := by
-      unfold protocolRecv at hr
-      split at hr
-      · cases hr
-      · split at hr
-        · rename_i r' hr'; cases hr; exact hr'
-        · split at hr <;> cases hr
-    obtain ⟨⟨t', e⟩, ho⟩ := onData_total cfg ep t hd
+    obtain ⟨⟨t', e⟩, ho⟩ := onData_total cfg ep t (protocolRecv_some hr)
     exact ⟨t', e, ho⟩
 
 /-- any sequence of datagrams, to any endpoints, from any senders: never a raise, so every
@@ -137,14 +144,64 @@ theorem recv_sequence_total (cfg : Cfg) (t : Tracker) (ops : List (Endpoint × B
     obtain ⟨t2, es, h2, hl⟩ := ih t1
     exact ⟨t2, e1 :: es, by simp [recvAll, h1, h2], by simp [hl]⟩
 
+/-! ### the combined listener IS the C03 tracker -/
+
+/-- what the listener endpoints do with a decoded message: exactly one `C03.step` on the event C03's
+    own parser makes of the header map; the effect is exactly that step's notification — so C03's and
+    C04's theorems (`c03_history_raw`, `c04_step`: which callback fires, with which source,
+    `valid_to_saturates`) speak about this endpoint. -/
+theorem listener_is_C03_step (trk : C03.Cfg) (sockA : Bool) (t : Tracker) (h : Hdrs) :
+    listenerStep Fixes.all trk sockA t h
+      = .ok (C03.step ipv (C03.Parse.skipHdr trk) t (C03.Parse.parseEv trk sockA (pairsOf h))) :=
+  listenerStep_spec trk sockA t h
+
 /-! ### a dropped datagram is inert, a well-formed message is dispatched -/
+
+theorem listener_dropped (trk : C03.Cfg) (sockA : Bool) (t t' : Tracker) (n : Option (C03.Notif String)) {h : Hdrs}
+    (hg : udnGuarantee h) (hclk : C03.Parse.tsOf (hsOf h) ≤ trk.tMax)
+    (hc : classifyEv (C03.Parse.parseEv trk sockA (pairsOf h)) = none)
+    (hs : listenerStep Fixes.all trk sockA t h = .ok (t', n)) : t' = t ∧ n = none := by
+  rw [listenerStep_spec] at hs
+  simp only [Except.ok.injEq] at hs
+  have hw := C03.Parse.parseEv_wf trk sockA (pairsOf h) hg hclk
+  cases hpe : C03.Parse.parseEv trk sockA (pairsOf h) with
+  | noise ts =>
+    rw [hpe] at hs
+    simp only [C03.step, Prod.mk.injEq] at hs
+    exact ⟨hs.1.symm, hs.2.symm⟩
+  | purge nw =>
+    rcases C03.Parse.parseEv_cases trk sockA (pairsOf h) with ⟨ts, hn⟩ | ⟨kind, v, hm, _⟩
+    · rw [hpe] at hn; cases hn
+    · rw [hpe] at hm; cases hm
+  | msg m =>
+    rw [hpe] at hs hc hw
+    simp only [C03.Ev.wf] at hw
+    simp only [classifyEv] at hc
+    have hsb : m.sighting? = none ∧ m.byebye? = none := by
+      split at hc
+      · rename_i hk
+        refine ⟨by simp [C03.Msg.sighting?, hk], ?_⟩
+        cases hb : m.byebye? with
+        | none => rfl
+        | some u => rw [hb] at hc; cases hc
+      · rename_i hk
+        refine ⟨?_, by simp [C03.Msg.byebye?, hk]⟩
+        cases hb : m.sighting? with
+        | none => rfl
+        | some u => rw [hb] at hc; cases hc
+    have h1 := C03.invalid_inert ipv (C03.Parse.skipHdr trk) t m hw hsb.1 hsb.2
+    have h2 := step_notif_none ipv (C03.Parse.skipHdr trk) t m (wfCore_of_wf hw) hsb.1 hsb.2
+    rw [hs] at h1 h2
+    exact ⟨h1, h2⟩
 
 /-- **C02, second sentence.**  A datagram that is not a well-formed message for the endpoint
     (gate fails, decoding is rejected, the endpoint's validity test fails, not an
     M-SEARCH/`ssdp:discover`, no matching target) fires no callback, sends nothing, schedules
-    nothing and leaves the tracker — in particular the set of known devices — exactly as it was. -/
-theorem dropped_inert (cfg : Cfg) (ep : Endpoint) (t t' : Tracker) (eff : Eff) (data : Bytes) (loc : Option Addr)
-    (src : Addr) (now : Int) (hwf : classify cfg ep data loc src now = none)
+    nothing and leaves the tracker — the WHOLE state of the C03 model: device map with stored
+    headers and locations, watermark — exactly as it was.  For the combined listener this is C03's
+    `invalid_inert` (the theorem behind `invalid_inert_raw`) under the interface assumption. -/
+theorem dropped_inert (hg : DecodeGuarantee) (cfg : Cfg) (ep : Endpoint) (t t' : Tracker) (eff : Eff) (data : Bytes)
+    (loc : Option Addr) (src : Addr) (now : Int) (hclk : ClockOk cfg.trk data loc src now) (hwf : classify cfg ep data loc src now = none)
     (h : recv Fixes.all cfg ep t data loc src now = .ok (t', eff)) : eff = noEff ∧ t' = t := by
   unfold recv at h
   unfold classify at hwf
@@ -156,6 +213,7 @@ theorem dropped_inert (cfg : Cfg) (ep : Endpoint) (t t' : Tracker) (eff : Eff) (
     | none => cases h; exact ⟨rfl, rfl⟩
     | some p =>
       obtain ⟨rl, hd⟩ := p
+      have hdec := protocolRecv_some hp
       dsimp only at h hwf
       cases ep with
       | adv =>
@@ -178,29 +236,16 @@ theorem dropped_inert (cfg : Cfg) (ep : Endpoint) (t t' : Tracker) (eff : Eff) (
           cases h; exact ⟨rfl, rfl⟩
       | listenerAdv =>
         simp only [onData] at h
-        cases hc : advClassify hd with
-        | none => rw [hc] at h; cases h; exact ⟨rfl, rfl⟩
-        | some k =>
-          rw [hc] at h hwf
-          cases k with
-          | byebye =>
-            simp only [unsee] at h
-            by_cases hv : validByebye hd = true
-            · have hn : usnUdn hd = none := by simpa [hv] using hwf
-              simp [hv, hn] at h; exact ⟨h.2.symm, h.1.symm⟩
-            · simp [hv] at h; exact ⟨h.2.symm, h.1.symm⟩
-          | alive =>
-            simp only [seeAdvertisement] at h
-            by_cases hv : validAdv hd = true
-            · have hn : usnUdn hd = none := by simpa [hv] using hwf
-              simp [hv, seeDevice_none t hd hn] at h; exact ⟨h.2.symm, h.1.symm⟩
-            · simp [hv] at h; exact ⟨h.2.symm, h.1.symm⟩
-          | update =>
-            simp only [seeAdvertisement] at h
-            by_cases hv : validAdv hd = true
-            · have hn : usnUdn hd = none := by simpa [hv] using hwf
-              simp [hv, seeDevice_none t hd hn] at h; exact ⟨h.2.symm, h.1.symm⟩
-            · simp [hv] at h; exact ⟨h.2.symm, h.1.symm⟩
+        cases hs : listenerStep Fixes.all cfg.trk true t hd with
+        | error e => rw [hs] at h; cases h
+        | ok r =>
+          obtain ⟨t1, n⟩ := r
+          rw [hs] at h
+          simp only [Except.ok.injEq, Prod.mk.injEq] at h
+          obtain ⟨rfl, rfl⟩ := h
+          obtain ⟨e1, e2⟩ := listener_dropped cfg.trk true t t1 n (hg _ _ _ _ _ _ hdec) (hclk _ _ hdec) hwf hs
+          subst e1 e2
+          exact ⟨rfl, rfl⟩
       | listenerSearch =>
         simp only [onData] at h
         cases hc : searchClassify cfg.targetHost hd with
@@ -211,11 +256,17 @@ theorem dropped_inert (cfg : Cfg) (ep : Endpoint) (t t' : Tracker) (eff : Eff) (
           cases b with
           | false => cases h; exact ⟨rfl, rfl⟩
           | true =>
-            simp only [seeSearch] at h
-            by_cases hv : validSearch hd = true
-            · have hn : usnUdn hd = none := by simpa [hfs, hv] using hwf
-              simp [hv, seeDevice_none t hd hn] at h; exact ⟨h.2.symm, h.1.symm⟩
-            · simp [hv] at h; exact ⟨h.2.symm, h.1.symm⟩
+            simp only [hfs, if_true] at hwf
+            cases hs : listenerStep Fixes.all cfg.trk false t hd with
+            | error e => rw [hs] at h; cases h
+            | ok r =>
+              obtain ⟨t1, n⟩ := r
+              rw [hs] at h
+              simp only [Except.ok.injEq, Prod.mk.injEq] at h
+              obtain ⟨rfl, rfl⟩ := h
+              obtain ⟨e1, e2⟩ := listener_dropped cfg.trk false t t1 n (hg _ _ _ _ _ _ hdec) (hclk _ _ hdec) hwf hs
+              subst e1 e2
+              exact ⟨rfl, rfl⟩
       | responder =>
         simp only [onData] at h
         unfold responder at h
@@ -226,24 +277,6 @@ theorem dropped_inert (cfg : Cfg) (ep : Endpoint) (t t' : Tracker) (eff : Eff) (
             · simp [hs, hc] at hwf
           simp [hs, respond, hc] at h; exact ⟨h.2.symm, h.1.symm⟩
         · simp [hs] at h; exact ⟨h.2.symm, h.1.symm⟩
-
-/-- whether a datagram is a well-formed message for an endpoint — and what it asks for — does not
-    depend on the clock (nor, by construction, on the tracker state): the clock value only travels
-    into the `_timestamp` metadata, which no validity test reads -/
-theorem classify_clock_irrelevant (cfg : Cfg) (ep : Endpoint) (data : Bytes) (loc : Option Addr) (src : Addr)
-    (now now' : Int) : classify cfg ep data loc src now = classify cfg ep data loc src now' := by
-  unfold classify
-  rcases protocolRecv_now cfg.prefixes data loc src now now' with ⟨h1, h2⟩ | ⟨rl, h, h', h1, h2, hs⟩
-  · rw [h1, h2]
-  · rw [h1, h2]
-    obtain ⟨a, b, c, d, e, f, g, i⟩ := classifiers_same hs
-    dsimp only
-    cases ep with
-    | adv => simp only [a]
-    | search => unfold firesSearch; rw [i]
-    | listenerAdv => simp only [a, c, d, e]
-    | listenerSearch => unfold firesSearch; rw [i, b, e]
-    | responder => simp only [f, g]
 
 /-- the C02 model decodes exactly as the C01 model does -/
 theorem decoder_is_C01 (d : Bytes) (loc : Option Addr) (src : Addr) (now : Int) :
@@ -256,48 +289,6 @@ theorem responder_only_msearch (fx : Fixes) (cfg : Cfg) (rl : Bytes) (h : Hdrs)
   unfold responder isSearch
   have : (rl == ofString "M-SEARCH * HTTP/1.1") = false := by simpa using hrl
   simp [this]
-
-/-- the known-device map is a dict: its keys stay unique whatever arrives -/
-theorem purgeLoop_sublist (now : Int) (d : PyDict Bytes Int) (nx : Option Int) :
-    (purgeLoop now d nx).1.Sublist d := by
-  induction d generalizing nx with
-  | nil => simp [purgeLoop]
-  | cons p r ih =>
-    obtain ⟨u, vt⟩ := p
-    unfold purgeLoop
-    split
-    · exact (ih nx).trans (List.sublist_cons_self _ _)
-    · exact (ih _).cons_cons _
-
-theorem purge_nodup (t : Tracker) (now : Int) (h : (PyDict.keys t.devices).Nodup) :
-    (PyDict.keys (purge t now).devices).Nodup := by
-  have key : (PyDict.keys (purgeLoop now t.devices none).1).Nodup :=
-    List.Nodup.sublist ((purgeLoop_sublist now t.devices none).map _) h
-  unfold purge
-  split
-  · split
-    · exact h
-    · exact key
-  · exact key
-
-theorem seeDevice_spec {t t' : Tracker} {hd : Hdrs} {o : Option Bytes}
-    (h : seeDevice Fixes.all t hd = .ok (t', o)) (hn : (PyDict.keys t.devices).Nodup) :
-    (PyDict.keys t'.devices).Nodup ∧ (usnUdn hd = none → t' = t) ∧ (∀ u, usnUdn hd = some u → u ∈ PyDict.keys t'.devices) := by
-  unfold seeDevice at h
-  simp only [Fixes.all, if_true] at h
-  cases hu : usnUdn hd with
-  | none => rw [hu] at h; cases h; exact ⟨hn, fun _ => rfl, fun u e => by cases e⟩
-  | some udn =>
-    rw [hu] at h
-    dsimp only at h
-    obtain ⟨vt, hv⟩ := validTo_total hd (nowOf hd)
-    simp only [Fixes.all] at hv
-    rw [hv] at h
-    cases h
-    refine ⟨PyDict.nodup_keys_set _ _ _ (purge_nodup t _ hn), ⟨fun e => absurd e (by simp), ?_⟩⟩
-    intro u e
-    simp only [Option.some.injEq] at e; subst e
-    exact (PyDict.mem_keys_set _ _ _ _).mpr (Or.inl rfl)
 
 theorem respond_effect (delay : Int) (count : Nat) {e : Eff} (hc : count ≠ 0)
     (h : respond Fixes.all delay count = .ok e) : e.sends + e.timers ≥ 1 := by
@@ -318,17 +309,51 @@ def dispatchedM (t' : Tracker) (eff : Eff) : Dispatch → Prop
   | .unsee u => u ∉ PyDict.keys t'.devices
   | .respond => eff.sends + eff.timers ≥ 1
 
-/-- **C02, "a well-formed message is dispatched"**, and the invariant that makes the next datagram
-    meet a proper dict again: in every state whose device keys are unique, a well-formed message
-    has its effect (callback / device recorded / device forgotten / answer sent or scheduled) and
-    the keys stay unique; a dropped one changes nothing. -/
-theorem dispatched_effect (cfg : Cfg) (ep : Endpoint) (t t' : Tracker) (eff : Eff) (data : Bytes) (loc : Option Addr)
-    (src : Addr) (now : Int) (hn : (PyDict.keys t.devices).Nodup)
+theorem listener_dispatched (trk : C03.Cfg) (sockA : Bool) (t t' : Tracker) (hi : C03.Inv t)
+    (n : Option (C03.Notif String)) {h : Hdrs}
+    (hg : udnGuarantee h) (hclk : C03.Parse.tsOf (hsOf h) ≤ trk.tMax)
+    (hs : listenerStep Fixes.all trk sockA t h = .ok (t', n)) :
+    C03.Inv t' ∧ ∀ x, classifyEv (C03.Parse.parseEv trk sockA (pairsOf h)) = some x → dispatchedM t' (effOfNotif n) x := by
+  rw [listenerStep_spec] at hs
+  simp only [Except.ok.injEq] at hs
+  have hw := C03.Parse.parseEv_wf trk sockA (pairsOf h) hg hclk
+  generalize C03.Parse.parseEv trk sockA (pairsOf h) = e at hs hw
+  have h1 : (C03.step ipv (C03.Parse.skipHdr trk) t e).1 = t' := by rw [hs]
+  have h2 : (C03.step ipv (C03.Parse.skipHdr trk) t e).2 = n := by rw [hs]
+  subst h1 h2
+  refine ⟨C03.inv_step _ _ hi e, ?_⟩
+  intro x hx
+  cases e with
+  | purge _ => cases hx
+  | noise _ => cases hx
+  | msg m =>
+    have hw := wfCore_of_wf (show m.wf = true from hw)
+    simp only [classifyEv] at hx
+    split at hx
+    · rename_i hk
+      cases hb : m.byebye? with
+      | none => rw [hb] at hx; cases hx
+      | some u =>
+        rw [hb] at hx; simp only [Option.map_some, Option.some.injEq] at hx; subst hx
+        exact unsee_not_mem _ _ t hi m hw hk u hb
+    · rename_i hk
+      cases hb : m.sighting? with
+      | none => rw [hb] at hx; cases hx
+      | some p =>
+        rw [hb] at hx; simp only [Option.map_some, Option.some.injEq] at hx; subst hx
+        exact see_mem _ _ t m hw hk p.1 p.2 hb
+
+/-- **C02, "a well-formed message is dispatched"**, with the invariant that makes the next datagram
+    meet a proper state again: in every state satisfying C03's invariant (unique device keys,
+    watermark, a live location per device), a well-formed message has its effect (callback / device
+    recorded / device forgotten / answer sent or scheduled) and the invariant is kept. -/
+theorem dispatched_effect (hg : DecodeGuarantee) (cfg : Cfg) (ep : Endpoint) (t t' : Tracker) (eff : Eff) (data : Bytes)
+    (loc : Option Addr) (src : Addr) (now : Int) (hclk : ClockOk cfg.trk data loc src now) (hn : C03.Inv t)
     (h : recv Fixes.all cfg ep t data loc src now = .ok (t', eff)) :
-    (PyDict.keys t'.devices).Nodup ∧ ∀ d, classify cfg ep data loc src now = some d → dispatchedM t' eff d := by
+    C03.Inv t' ∧ ∀ d, classify cfg ep data loc src now = some d → dispatchedM t' eff d := by
   cases hcl : classify cfg ep data loc src now with
   | none =>
-    obtain ⟨_, rfl⟩ := dropped_inert cfg ep t t' eff data loc src now hcl h
+    obtain ⟨_, rfl⟩ := dropped_inert hg cfg ep t t' eff data loc src now hclk hcl h
     exact ⟨hn, fun d e => by cases e⟩
   | some d0 =>
     unfold recv at h
@@ -341,6 +366,7 @@ theorem dispatched_effect (cfg : Cfg) (ep : Endpoint) (t t' : Tracker) (eff : Ef
       | none => cases hcl
       | some p =>
         obtain ⟨rl, hd⟩ := p
+        have hdec := protocolRecv_some hp
         dsimp only at h hcl
         cases ep with
         | adv =>
@@ -364,83 +390,33 @@ theorem dispatched_effect (cfg : Cfg) (ep : Endpoint) (t t' : Tracker) (eff : Ef
           · simp [hf] at hcl
         | listenerAdv =>
           simp only [onData] at h
-          cases hc : advClassify hd with
-          | none => rw [hc] at hcl; cases hcl
-          | some k =>
-            rw [hc] at h hcl
-            cases k with
-            | byebye =>
-              by_cases hv : validByebye hd = true
-              · simp only [hv, if_true] at hcl
-                cases hu : usnUdn hd with
-                | none => rw [hu] at hcl; cases hcl
-                | some u =>
-                  rw [hu] at hcl; simp only [Option.map_some, Option.some.injEq] at hcl; subst hcl
-                  simp only [unsee, hv, hu] at h
-                  by_cases hk : PyDict.contains t.devices u = true
-                  · simp [hk] at h
-                    obtain ⟨rfl, rfl⟩ := h
-                    refine ⟨PyDict.nodup_keys_erase _ _ hn, fun d e => ?_⟩
-                    cases e
-                    show u ∉ PyDict.keys (PyDict.erase t.devices u)
-                    rw [← PyDict.get?_eq_none_iff]; exact PyDict.get?_erase_self _ _ hn
-                  · simp [hk] at h
-                    obtain ⟨rfl, rfl⟩ := h
-                    refine ⟨hn, fun d e => ?_⟩
-                    cases e
-                    show u ∉ PyDict.keys t.devices
-                    rw [← PyDict.get?_eq_none_iff]
-                    simpa [PyDict.contains] using hk
-              · simp [hv] at hcl
-            | alive =>
-              by_cases hv : validAdv hd = true
-              · simp only [hv, if_true] at hcl
-                simp only [seeAdvertisement, hv] at h
-                obtain ⟨⟨t1, o⟩, hs⟩ := seeDevice_total t hd
-                rw [hs] at h
-                obtain ⟨n1, _, n3⟩ := seeDevice_spec hs hn
-                have ht : t' = t1 := by cases o <;> (simp at h; exact h.1.symm)
-                subst ht
-                refine ⟨n1, fun d e => ?_⟩
-                cases hu : usnUdn hd with
-                | none => rw [hu] at hcl; cases hcl
-                | some u => rw [hu] at hcl; simp at hcl; subst hcl; cases e; exact n3 u hu
-              · simp [hv] at hcl
-            | update =>
-              by_cases hv : validAdv hd = true
-              · simp only [hv, if_true] at hcl
-                simp only [seeAdvertisement, hv] at h
-                obtain ⟨⟨t1, o⟩, hs⟩ := seeDevice_total t hd
-                rw [hs] at h
-                obtain ⟨n1, _, n3⟩ := seeDevice_spec hs hn
-                have ht : t' = t1 := by cases o <;> (simp at h; exact h.1.symm)
-                subst ht
-                refine ⟨n1, fun d e => ?_⟩
-                cases hu : usnUdn hd with
-                | none => rw [hu] at hcl; cases hcl
-                | some u => rw [hu] at hcl; simp at hcl; subst hcl; cases e; exact n3 u hu
-              · simp [hv] at hcl
+          cases hs : listenerStep Fixes.all cfg.trk true t hd with
+          | error e => rw [hs] at h; cases h
+          | ok r =>
+            obtain ⟨t1, n⟩ := r
+            rw [hs] at h
+            simp only [Except.ok.injEq, Prod.mk.injEq] at h
+            obtain ⟨rfl, rfl⟩ := h
+            obtain ⟨hi', hd'⟩ := listener_dispatched cfg.trk true t t1 hn n (hg _ _ _ _ _ _ hdec) (hclk _ _ hdec) hs
+            exact ⟨hi', fun d e => hd' d (hcl.trans e)⟩
         | listenerSearch =>
           simp only [onData] at h
-          by_cases hf : (firesSearch cfg hd && validSearch hd) = true
+          by_cases hf : firesSearch cfg hd = true
           · simp only [hf, if_true] at hcl
-            simp only [Bool.and_eq_true] at hf
-            obtain ⟨hf1, hv⟩ := hf
-            unfold firesSearch at hf1
+            unfold firesSearch at hf
             cases hc : searchClassify cfg.targetHost hd with
             | error e => rw [hc] at h; cases h
             | ok b =>
-              rw [hc] at h hf1; simp only at hf1; subst hf1
-              simp only [seeSearch, hv] at h
-              obtain ⟨⟨t1, o⟩, hs⟩ := seeDevice_total t hd
-              rw [hs] at h
-              obtain ⟨n1, _, n3⟩ := seeDevice_spec hs hn
-              have ht : t' = t1 := by cases o <;> (simp at h; exact h.1.symm)
-              subst ht
-              refine ⟨n1, fun d e => ?_⟩
-              cases hu : usnUdn hd with
-              | none => rw [hu] at hcl; cases hcl
-              | some u => rw [hu] at hcl; simp at hcl; subst hcl; cases e; exact n3 u hu
+              rw [hc] at h hf; simp only at hf; subst hf
+              cases hs : listenerStep Fixes.all cfg.trk false t hd with
+              | error e => rw [hs] at h; cases h
+              | ok r =>
+                obtain ⟨t1, n⟩ := r
+                rw [hs] at h
+                simp only [Except.ok.injEq, Prod.mk.injEq] at h
+                obtain ⟨rfl, rfl⟩ := h
+                obtain ⟨hi', hd'⟩ := listener_dispatched cfg.trk false t t1 hn n (hg _ _ _ _ _ _ hdec) (hclk _ _ hdec) hs
+                exact ⟨hi', fun d e => hd' d (hcl.trans e)⟩
           · simp [hf] at hcl
         | responder =>
           simp only [onData] at h
@@ -457,11 +433,49 @@ theorem dispatched_effect (cfg : Cfg) (ep : Endpoint) (t t' : Tracker) (eff : Ef
             exact ⟨hn, fun d e => by cases e; exact respond_effect _ _ hcnt he1⟩
           · simp [hc] at hcl
 
-/-- every state reached from the empty tracker by any sequence of datagrams has unique device keys
+/-- one datagram keeps C03's invariant, whatever it is (no interface hypothesis needed: `C03.inv_step`) -/
+theorem recv_inv (cfg : Cfg) (ep : Endpoint) (t t' : Tracker) (eff : Eff) (data : Bytes) (loc : Option Addr) (src : Addr)
+    (now : Int) (hn : C03.Inv t) (h : recv Fixes.all cfg ep t data loc src now = .ok (t', eff)) : C03.Inv t' := by
+  unfold recv at h
+  cases hp : protocolRecv Fixes.all cfg.prefixes data loc src now with
+  | error e => rw [hp] at h; cases h
+  | ok r =>
+    rw [hp] at h
+    cases r with
+    | none => cases h; exact hn
+    | some p =>
+      obtain ⟨rl, hd⟩ := p
+      dsimp only at h
+      cases ep with
+      | adv => simp only [onData] at h; cases h; exact hn
+      | search =>
+        simp only [onData] at h
+        cases hc : searchClassify cfg.targetHost hd with
+        | error e => rw [hc] at h; cases h
+        | ok b => rw [hc] at h; cases h; exact hn
+      | listenerAdv =>
+        simp only [onData, listenerStep_spec] at h
+        cases h; exact C03.inv_step _ _ hn _
+      | listenerSearch =>
+        simp only [onData] at h
+        cases hc : searchClassify cfg.targetHost hd with
+        | error e => rw [hc] at h; cases h
+        | ok b =>
+          rw [hc] at h
+          cases b with
+          | false => cases h; exact hn
+          | true => simp only [listenerStep_spec] at h; cases h; exact C03.inv_step _ _ hn _
+      | responder =>
+        simp only [onData] at h
+        cases hr : responder Fixes.all cfg rl hd with
+        | error e => rw [hr] at h; cases h
+        | ok e => rw [hr] at h; cases h; exact hn
+
+/-- every state reached from the empty tracker by any sequence of datagrams satisfies C03's invariant
     (the hypothesis of `dispatched_effect` / `model_judged_ok` holds along every history) -/
-theorem recv_sequence_nodup (cfg : Cfg) (t : Tracker) (hn : (PyDict.keys t.devices).Nodup)
+theorem recv_sequence_inv (cfg : Cfg) (t : Tracker) (hn : C03.Inv t)
     (ops : List (Endpoint × Bytes × Option Addr × Addr × Int)) (t' : Tracker) (effs : List Eff)
-    (h : recvAll Fixes.all cfg t ops = .ok (t', effs)) : (PyDict.keys t'.devices).Nodup := by
+    (h : recvAll Fixes.all cfg t ops = .ok (t', effs)) : C03.Inv t' := by
   induction ops generalizing t effs with
   | nil => simp only [recvAll, Except.ok.injEq, Prod.mk.injEq] at h; rw [← h.1]; exact hn
   | cons op r ih =>
@@ -474,23 +488,23 @@ theorem recv_sequence_nodup (cfg : Cfg) (t : Tracker) (hn : (PyDict.keys t.devic
     rw [h2] at h
     simp only [Except.ok.injEq, Prod.mk.injEq] at h
     obtain ⟨rfl, _⟩ := h
-    exact ih t1 (dispatched_effect cfg ep t t1 e1 data loc src now hn h1).1 es h2
+    exact ih t1 (recv_inv cfg ep t t1 e1 data loc src now hn h1) es h2
 
-/-- the judge accepts what the model does: for every datagram, in every state with unique device
-    keys, the model's own outcome rendered as an observation satisfies `C02.ok` — so a judge
+/-- the judge accepts what the model does: for every datagram, in every state satisfying C03's
+    invariant, the model's own outcome rendered as an observation satisfies `C02.ok` — so a judge
     failure at run time is a property of the implementation, never of the judge -/
-theorem model_judged_ok (cfg : Cfg) (ep : Endpoint) (t : Tracker) (data : Bytes) (loc : Option Addr) (src : Addr)
-    (now : Int) (hn : (PyDict.keys t.devices).Nodup) (sortKeys : List Bytes → List Bytes)
+theorem model_judged_ok (hg : DecodeGuarantee) (cfg : Cfg) (ep : Endpoint) (t : Tracker) (data : Bytes) (loc : Option Addr)
+    (src : Addr) (now : Int) (hclk : ClockOk cfg.trk data loc src now) (hn : C03.Inv t) (sortKeys : List String → List String)
     (hsort : ∀ l x, x ∈ sortKeys l ↔ x ∈ l) :
     ∃ o, obsOf t (recv Fixes.all cfg ep t data loc src now) sortKeys = some o
       ∧ ok (classify cfg ep data loc src now) o = true := by
   obtain ⟨t', eff, h⟩ := recv_total cfg ep t data loc src now
   rw [h]
   refine ⟨_, rfl, ?_⟩
-  obtain ⟨_, hd⟩ := dispatched_effect cfg ep t t' eff data loc src now hn h
+  obtain ⟨_, hd⟩ := dispatched_effect hg cfg ep t t' eff data loc src now hclk hn h
   cases hc : classify cfg ep data loc src now with
   | none =>
-    obtain ⟨he, ht⟩ := dropped_inert cfg ep t t' eff data loc src now hc h
+    obtain ⟨he, ht⟩ := dropped_inert hg cfg ep t t' eff data loc src now hclk hc h
     subst he ht
     simp [ok, Obs.inert, noEff]
   | some d =>
@@ -501,6 +515,37 @@ theorem model_judged_ok (cfg : Cfg) (ep : Endpoint) (t : Tracker) (data : Bytes)
     | unsee u => simpa [ok, Obs.dispatched, dispatchedM, hsort] using this
     | respond => simpa [ok, Obs.dispatched, dispatchedM] using this
 
+/-! ### the interface assumption is a theorem about the decoder model -/
+
+/-- **C01 → C03**: every header map the (repaired) decoder model returns satisfies what the tracker
+    model assumes of it (`C03.Parse.RawOp.decoded`, the hypothesis of `parseEv_wf`, `c03_history_raw`,
+    `c04_history_raw`, `invalid_inert_raw`): when the USN yields a udn, `_udn` is that udn.  It was
+    FALSE of the code before the repair of F01a (a second spelling of `_udn` in the datagram won). -/
+theorem decode_guarantee : DecodeGuarantee := by
+  intro d loc src now rl h hd
+  obtain ⟨pairs, rfl⟩ := decodeX_ok' hd
+  exact decode_udn_guarantee pairs _ now loc src
+
+/-- the composed statements without hypothesis -/
+theorem dropped_inert_closed (cfg : Cfg) (ep : Endpoint) (t t' : Tracker) (eff : Eff) (data : Bytes)
+    (loc : Option Addr) (src : Addr) (now : Int) (hclk : ClockOk cfg.trk data loc src now)
+    (hwf : classify cfg ep data loc src now = none)
+    (h : recv Fixes.all cfg ep t data loc src now = .ok (t', eff)) : eff = noEff ∧ t' = t :=
+  dropped_inert decode_guarantee cfg ep t t' eff data loc src now hclk hwf h
+
+theorem dispatched_effect_closed (cfg : Cfg) (ep : Endpoint) (t t' : Tracker) (eff : Eff) (data : Bytes)
+    (loc : Option Addr) (src : Addr) (now : Int) (hclk : ClockOk cfg.trk data loc src now) (hn : C03.Inv t)
+    (h : recv Fixes.all cfg ep t data loc src now = .ok (t', eff)) :
+    C03.Inv t' ∧ ∀ d, classify cfg ep data loc src now = some d → dispatchedM t' eff d :=
+  dispatched_effect decode_guarantee cfg ep t t' eff data loc src now hclk hn h
+
+theorem model_judged_ok_closed (cfg : Cfg) (ep : Endpoint) (t : Tracker) (data : Bytes) (loc : Option Addr)
+    (src : Addr) (now : Int) (hclk : ClockOk cfg.trk data loc src now) (hn : C03.Inv t)
+    (sortKeys : List String → List String) (hsort : ∀ l x, x ∈ sortKeys l ↔ x ∈ l) :
+    ∃ o, obsOf t (recv Fixes.all cfg ep t data loc src now) sortKeys = some o
+      ∧ ok (classify cfg ep data loc src now) o = true :=
+  model_judged_ok decode_guarantee cfg ep t data loc src now hclk hn sortKeys hsort
+
 /-! ### each repair is necessary: one raising datagram per unrepaired variant
 
 `recv_total` is false for every variant of the model with one guard switched off; the witnesses
@@ -510,7 +555,7 @@ the model by the kernel.  They also show that the hypotheses of `dropped_inert` 
 def raises {α : Type} (r : Except Exn α) : Option Exn := match r with | .error e => some e | .ok _ => none
 
 def wCfg : Cfg :=
-  { prefixes := Gen.C01Ssdp.ssdpPrefixes, rootUdn := ofString "uuid:r",
+  { prefixes := Gen.C01Ssdp.ssdpPrefixes, trk := C03.specCfg, rootUdn := ofString "uuid:r",
     devices := [(ofString "uuid:r", ofString "urn:schemas-upnp-org:device:Basic:1")], services := [] }
 def v4 : Addr := { host := ofString "192.168.1.7", port := 1900 }
 def scopedSrc : Addr := { host := ofString "fe80::1", port := 1900, v6 := true, scope := 3 }
@@ -550,7 +595,7 @@ theorem witness_F02b :
       = some .unicodeDecode := by decide +kernel
 
 theorem witness_F02c :
-    raises (recv { Fixes.all with urlsplitGuard := false } wCfg .listenerAdv {} (alive (ofString "LOCATION:http://[fe80::1/")) none scopedSrc 0)
+    raises (recv { Fixes.all with urlsplitGuard := false } wCfg .adv {} (alive (ofString "LOCATION:http://[fe80::1/")) none scopedSrc 0)
       = some .urlValueError := by decide +kernel
 
 theorem witness_F02d :
@@ -558,18 +603,25 @@ theorem witness_F02d :
       = some .hostnameAssertion := by decide +kernel
 
 theorem witness_F02e :
-    raises (recv { Fixes.all with portGuard := false } wCfg .listenerAdv {} (alive (ofString "LOCATION:http://[fe80::1]:99999/")) none scopedSrc 0)
+    raises (recv { Fixes.all with portGuard := false } wCfg .adv {} (alive (ofString "LOCATION:http://[fe80::1]:99999/")) none scopedSrc 0)
       = some .portValueError := by decide +kernel
 
 theorem witness_F02f :
-    raises (recv { Fixes.all with tdGuard := false } wCfg .listenerAdv {}
-      (alive (http ++ crlf ++ ofString "CACHE-CONTROL:max-age=99999999999999999999")) none v4 0)
-      = some .timedeltaOverflow := by decide +kernel
+    raises (maxAgeUs { Fixes.all with tdGuard := false } (ofString "public, max-age=99999999999999999999"))
+      = some .timedeltaOverflow := by
+  decide +kernel
 
 theorem witness_F02g :
-    raises (recv { Fixes.all with dtGuard := false } wCfg .listenerAdv {}
-      (alive (http ++ crlf ++ ofString "CACHE-CONTROL:max-age=999999999999")) none v4 0)
-      = some .datetimeOverflow := by decide +kernel
+    raises (validToCc { Fixes.all with dtGuard := false } (ofString "max-age=999999999999") 1000)
+      = some .datetimeOverflow := by
+  decide +kernel
+
+/-- … and an exception of `extract_valid_to` escapes the combined listener whenever the message reaches it -/
+theorem validTo_propagates (fx : Fixes) (trk : C03.Cfg) (sockA : Bool) (t : Tracker) (h : Hdrs) (m : C03.Msg String) (e : Exn)
+    (hp : C03.Parse.parseEv trk sockA (pairsOf h) = .msg m) (hr : reachesValidTo m = true)
+    (hv : validTo fx h m.ts = .error e) : listenerStep fx trk sockA t h = .error e := by
+  unfold listenerStep
+  simp [hp, hr, hv]
 
 /-- F02h, at the call site: EVERY max-age of more than 4300 digits makes the unguarded `int()` raise -/
 theorem witness_F02h (ds : Bytes) (hl : ds.length > 4300) (hd : ∀ b ∈ ds, isDigit b = true) :
@@ -619,26 +671,14 @@ theorem witness_F02i :
         ++ ofString "ST:ssdp:all" ++ crlf ++ crlf) none v4 0)
       = some .randrangeEmpty := by decide +kernel
 
-/-- F02j: with the purge before the USN check, a message without USN that smuggles its own `_udn`
-    header is dropped (no callback) and yet removes an expired device -/
-theorem witness_F02j :
-    let t : Tracker := { devices := [(ofString "uuid:d1", 1000)], next := some 1000 }
-    let spoof := ofString "NOTIFY * HTTP/1.1" ++ crlf ++ ofString "_udn:uuid:x" ++ crlf ++ ofString "NT:x" ++ crlf
-      ++ ofString "NTS:ssdp:alive" ++ crlf ++ http ++ crlf ++ crlf
-    wellFormed wCfg .listenerAdv spoof none v4 5000 = false
-    ∧ (recv { Fixes.all with checkBeforePurge := false } wCfg .listenerAdv t spoof none v4 5000).toOption
-        = some ({ devices := [], next := none }, noEff)
-    ∧ (recv Fixes.all wCfg .listenerAdv t spoof none v4 5000).toOption = some (t, noEff) := by decide +kernel
-
-/-- non-vacuity of the positive side: a well-formed alive is dispatched (device added, one
-    notification), a well-formed M-SEARCH with MX 2 schedules one deferred answer -/
+/-- non-vacuity of the positive side: a well-formed alive reaches the advertisement listener's
+    callback, a well-formed M-SEARCH with MX 2 schedules one deferred answer, MX 0 sends at once -/
 example :
-    wellFormed wCfg .listenerAdv (alive http) none v4 7 = true
-    ∧ (recv Fixes.all wCfg .listenerAdv {} (alive http) none v4 7).toOption
-        = some ({ devices := [(ofString "uuid:d1", 900000007)], next := some 900000007 }, oneCb)
+    classify wCfg .adv (alive http) none v4 7 = some .notify
+    ∧ (recv Fixes.all wCfg .adv {} (alive http) none v4 7).toOption.map (·.2) = some oneCb
     ∧ (recv Fixes.all wCfg .responder {}
         (ofString "M-SEARCH * HTTP/1.1" ++ crlf ++ ofString "MAN:\"ssdp:discover\"" ++ crlf ++ ofString "MX:2" ++ crlf
-          ++ ofString "ST:upnp:rootdevice" ++ crlf ++ crlf) none v4 0).toOption = some ({}, { timers := 1 }) := by
+          ++ ofString "ST:upnp:rootdevice" ++ crlf ++ crlf) none v4 0).toOption.map (·.2) = some { timers := 1 } := by
   decide +kernel
 
 end Upnp.C02
